@@ -11,7 +11,6 @@ import (
 	"fmt"
 	"go/ast"
 	"go/parser"
-	"go/printer"
 	"go/token"
 	"os"
 	"path/filepath"
@@ -265,22 +264,69 @@ func main() {
 	} else {
 		o.def("symbols", "Option (List (Nat × String))", "none")
 	}
-	// the character-class predicates of the lexer, as the source text of their single return expression
+	// the character-class predicates of the lexer: each must be a single `return t1 || t2 || …` whose terms are
+	// `r == 'c'` or `unicode.IsLetter(r)` / `unicode.IsDigit(r)`; the terms are emitted sorted (order is immaterial).
+	// Any other shape gives `none` (the tie for these predicates is then by correspondence only).
 	{
+		ok := true
 		items = nil
-		for _, fn := range []string{"isAlphaNumeric", "isWildcard", "isSpace", "isEscape"} {
-			txt := "?"
-			if fd := findFunc(lexF, fn); fd != nil && fd.Body != nil && len(fd.Body.List) == 1 {
-				if rs, isRet := fd.Body.List[0].(*ast.ReturnStmt); isRet && len(rs.Results) == 1 {
-					var sb strings.Builder
-					if printer.Fprint(&sb, token.NewFileSet(), rs.Results[0]) == nil {
-						txt = sb.String()
+		var terms func(e ast.Expr) ([]string, bool)
+		terms = func(e ast.Expr) ([]string, bool) {
+			switch v := e.(type) {
+			case *ast.ParenExpr:
+				return terms(v.X)
+			case *ast.BinaryExpr:
+				if v.Op == token.LOR {
+					a, oka := terms(v.X)
+					b, okb := terms(v.Y)
+					return append(a, b...), oka && okb
+				}
+				if v.Op == token.EQL {
+					id, isID := v.X.(*ast.Ident)
+					lit, isLit := v.Y.(*ast.BasicLit)
+					if isID && isLit && id.Name == "r" && lit.Kind == token.CHAR {
+						if c, _, _, err := strconv.UnquoteChar(lit.Value[1:len(lit.Value)-1], '\''); err == nil {
+							return []string{fmt.Sprintf("rune %d", c)}, true
+						}
+					}
+				}
+			case *ast.CallExpr:
+				if len(v.Args) == 1 {
+					if id, isID := v.Args[0].(*ast.Ident); isID && id.Name == "r" {
+						if sel, isSel := v.Fun.(*ast.SelectorExpr); isSel {
+							if pk, isPk := sel.X.(*ast.Ident); isPk && pk.Name == "unicode" {
+								return []string{"unicode." + sel.Sel.Name}, true
+							}
+						}
 					}
 				}
 			}
-			items = append(items, fmt.Sprintf("(%s, %s)", q(fn), q(txt)))
+			return nil, false
 		}
-		o.def("classFns", "List (String × String)", list(items))
+		for _, fn := range []string{"isAlphaNumeric", "isWildcard", "isSpace", "isEscape"} {
+			var ts []string
+			good := false
+			if fd := findFunc(lexF, fn); fd != nil && fd.Body != nil && len(fd.Body.List) == 1 {
+				if rs, isRet := fd.Body.List[0].(*ast.ReturnStmt); isRet && len(rs.Results) == 1 {
+					ts, good = terms(rs.Results[0])
+				}
+			}
+			if !good {
+				ok = false
+				break
+			}
+			sort.Strings(ts)
+			var qs []string
+			for _, t := range ts {
+				qs = append(qs, q(t))
+			}
+			items = append(items, fmt.Sprintf("(%s, %s)", q(fn), list(qs)))
+		}
+		if ok {
+			o.def("classFns", "Option (List (String × List String))", "some "+list(items))
+		} else {
+			o.def("classFns", "Option (List (String × List String))", "none")
+		}
 	}
 	// keywords: the switch in lexWord: case "AND": return l.emit(TAnd)
 	{
